@@ -41,7 +41,10 @@ RULE_ADDED = (
               'Also: link-fault rounds with unplug / silence / replug; rounds over the TCP transport '
               'with an answer later than the socket time-out would be; slow senders; a failing '
               'uiHeartbeat followed by 7.5..12 s of steady traffic; device state as a function of an '
-              'epoch, advances refused by the device ')
+              'epoch, advances refused by the device '
+              ' '
+              'Round 8: every other round the manager is bound to the name localhost and odd cl'
+              'ients try the IPv6 loopback first. ')
 RULE = RULE + " " + RULE_ADDED.strip()
 ASSUMPTIONS = [
     "schedules are those the OS produces under injected device delays; not enumerated",
